@@ -18,11 +18,9 @@ CHECKS = {
         "technique": "contract-based deductive verification (Verus) of mechanically extracted real code",
     },
     "C19": {
-        "text": "Unbounded deductive proof (Verus) of the eq-break half: the real break_equivalences_formula (with the real unbox/rebox/quantify) returns spec_break(F), "
-                "and spec_break(F) is satisfied by exactly the interpretations/assignments satisfying F, classically and in here-and-there. The decomposition half "
-                "(sequential vs independent) and the simplify half (= C07) are not yet under contract.",
-        "design_ref": "DESIGN.md §5 C19",
-        "note": "Trusted: Verus/z3; prelude axioms (String/Vec extensionality, Box::from); sem.rs. decompose_sequential/independent (enumerate + captured mutable state) not under contract; flag plumbing in the task decompose functions not under contract.",
+        "text": 'Unbounded deductive proof (Verus) on the real code of two of the three flags: eq-break (break_equivalences_formula returns a family satisfied by exactly the interpretations satisfying the formula, classically and in HT) and decomposition (Problem::decompose/_independent/_sequential: the i-th emitted problem is the axioms [plus the earlier conjectures as axioms] and the i-th conjecture; for any notion of truth an interpretation refutes the original problem iff it refutes one of the emitted problems). The simplify flag is C07 for the portfolios; which portfolio is used at which stage is not under contract.',
+        "design_ref": "DESIGN.md §0, §5 C19",
+        "note": 'D21/D22 desugaring of the iterator chains in axioms/conjectures/decompose_*; format! = concatenation (T8); portfolio choice in the task decompose functions not verified.',
         "technique": "contract-based deductive verification (Verus) of mechanically extracted real code",
     },
     "C10": {
@@ -34,17 +32,15 @@ CHECKS = {
         "technique": "contract-based deductive verification (Verus) of statement fragments extracted from the real code",
     },
     "C20": {
-        "text": "Verus proves the five role accessors (left, right, program, user_guide, proof_outline) equal the bucket elements the property names, for buckets of any length, and the swap lemma. "
-                "Files::sort and Files::specification are outside the verifier's subset and are not decided.",
-        "design_ref": "DESIGN.md §5 C20",
-        "note": "PathBuf opaque; sort (WalkDir/filesystem) and specification (or_else) not under contract — the argument-order half of C20 is not covered.",
+        "text": 'Verus proves the six role accessors (left, right, specification, program, user_guide, proof_outline) equal the bucket elements the property names, for buckets of any length, the swap lemma, and that the classification statement of Files::sort appends a file to the bucket determined by its extension text alone (lp/spec/ug/po, anything else to other) and changes nothing else. The traversal (argument order, directory order: WalkDir, file system) is not decided.',
+        "design_ref": "DESIGN.md §0, §5 C20",
+        "note": 'PathBuf/Path/OsStr opaque, Path::extension/OsStr::to_str uninterpreted; Option::or_else per std docs; Either shim; traversal of Files::sort not under contract.',
         "technique": "contract-based deductive verification (Verus) of mechanically extracted real code",
     },
     "C07": {
-        "text": "Verus proves the semantic contract (HT-equivalence in both worlds for H subset of T, classical equivalence, no new free variables) directly on the real bodies of 8 of the 10 intuitionistic rewrites, "
-                "and the lifting through the real Apply::apply, composition and apply_fixpoint. The remaining two intuitionistic rewrites and the classic portfolio are not under contract, so the claim is partial.",
-        "design_ref": "DESIGN.md §5 C07",
-        "note": "conjoin/disjoin assumed contract; remove_orphaned_variables, join_nested_quantifiers, classic.rs, Compose::compose not verified; D11/D12 normalisations applied by the extractor.",
+        "text": 'Verus proves the semantic contract (HT-equivalence in both worlds for H subset of T, classical equivalence, no new free variables) directly on the real bodies of all 10 intuitionistic rewrites, preserves_cl for remove_double_negation and extend_quantifier_scope, and the lifting through the real Apply::apply, composition and apply_fixpoint. Three classic rewrites (substitute_defined_variables, restrict_quantifier_domain, simplify_transitive_equality) are not under contract; a genuine defect in the last was found by reading and fixed.',
+        "design_ref": "DESIGN.md §0, §5 C07",
+        "note": 'conjoin/disjoin assumed contract; D11/D12/D23 normalisations; sort/dedup/append specs; Compose::compose glue and the portfolio tables not verified.',
         "technique": "contract-based deductive verification (Verus) of mechanically extracted real code",
     },
     "C16": {
@@ -70,10 +66,9 @@ CHECKS = {
         "technique": "contract-based deductive verification (Verus) of mechanically extracted real code",
     },
     "C11": {
-        "text": "Partial: four ensure_* checks (tightness gating with the bypass flag, placeholder sort conflicts, unsupported roles, formula representation) are proved exact on the real code. The graph algorithms (tightness, private recursion), "
-                "the set-operation based checks and their call sites are outside the verifiers' reach and not decided.",
-        "design_ref": "DESIGN.md §5 C11",
-        "note": "is_tight is an uninterpreted function here; petgraph/HashMap code, 5 ensure_* methods with iterator adapters and the decompose glue are not verified.",
+        "text": 'Seven of the nine ensure_* checks are proved exact on the real code (tightness gating with the bypass flag, placeholder sort conflicts, unsupported roles, formula representation, input/output disjointness, specification assumptions free of output predicates, assumptions over input symbols only — with the real UserGuide::input_predicates/output_predicates/placeholders), and the block of ensure_* calls of decompose is proved to apply every check to the right object before anything is emitted. The graph algorithms (tightness, private recursion) and two checks that collect into an IndexSet are not decided.',
+        "design_ref": "DESIGN.md §0, §5 C11",
+        "note": 'is_tight is an uninterpreted function here; petgraph/HashMap code not verified; indexmap shim (intersection/difference/append); D23.',
         "technique": "contract-based deductive verification (Verus) of mechanically extracted real code",
     },
     "C12": {
@@ -84,10 +79,9 @@ CHECKS = {
         "technique": "contract-based deductive verification (Verus) of mechanically extracted real code",
     },
     "C13": {
-        "text": "Verus proves on the real inductive_lemma that the base and step obligations it returns imply the inductive lemma in every interpretation (induction over the integers inside the verifier), using the proved contract of "
-                "Formula::substitute. Definition acceptance and lemma sequencing are not under contract, so the claim is partial.",
-        "design_ref": "DESIGN.md §5 C13",
-        "note": "substitute used through its C17 contract (proved in unit subst); definition(), GeneralLemma::try_from, from_specification and the sequencing loop not verified.",
+        "text": 'Verus proves on the real inductive_lemma that the base and step obligations it returns imply the inductive lemma in every interpretation (induction over the integers inside the verifier, using the proved contract of Formula::substitute), and on the real CheckInternal::definition that an accepted definition has the definitional form — distinct quantified variables that are exactly the arguments of the defined atom, a predicate not among the taken ones, a body over taken predicates and without other free variables — together with a proof that every such definition is a conservative extension (an expansion of any interpretation of the earlier vocabulary satisfies it). The growth of the taken set along an outline and the sequencing of lemma problems are not under contract.',
+        "design_ref": "DESIGN.md §0, §5 C13",
+        "note": 'substitute used through its C17 contract; IndexSet::difference/from_iter/== per indexmap documentation; D19 (definition and TryFrom<GeneralTerm> for Variable verified as inherent methods); GeneralLemma::try_from, from_specification and the sequencing loop of AssembledExternalEquivalenceTask::decompose not verified.',
         "technique": "contract-based deductive verification (Verus) of mechanically extracted real code",
     },
     "C03": {
@@ -105,23 +99,21 @@ CHECKS = {
         "technique": "contract-based deductive verification (Verus) of mechanically extracted real code",
     },
     "C08": {
-        "text": "Partial: regularity predicates, p2f/p2f_int_term (with the lemma that translated regular terms denote exactly their mini-gringo value on integer assignments) and the rule-by-rule fallback structure of mu are proved on the real code; "
-                "rule-level HT-equivalence of natural with tau* is not decided.",
-        "design_ref": "DESIGN.md §5 C08",
-        "note": "natural_rule/tau_star_rule are stand-ins inside mu; int_variables, head interval handling and natural_comparison not verified; D20 eta-expansion.",
+        "text": "Unbounded deductive proof (Verus) on the real code: whenever natural_rule accepts a rule, the sentence it returns is closed and true in <H,T> (H subset of T) exactly when every ground instance of the rule is satisfied — the contract proved for tau_star_rule, hence HT-equivalent to tau* rule by rule; natural and mu carry the same contract per rule (mu never fails). Every function of natural.rs is under contract on its real body: regularity, p2f, int_variables (exactly Lifschitz' integer variables), comparisons incl. t1 = t2..t3, literals, bodies, fresh head variables (distinct, fresh, terminating search), heads with intervals (basic and choice), constraints; integer-sorted variables are justified by lemma_iv_trivial (non-integer instances are trivially satisfied).",
+        "design_ref": "DESIGN.md §0, §5 C08",
+        "note": 'Assumed: asp::Rule::terms accessor contract; input-size bound for an i32 counter (small_head); tau_star_rule/choose_fresh_global_variables inside mu carry the contracts of unit tau; D14/D19/D24/D27 desugarings; internal contracts of the body/head translators are shape contracts whose meaning is given by proved lemmas.',
         "technique": "contract-based deductive verification (Verus) of mechanically extracted real code",
     },
     "C09": {
-        "text": "Only the uniqueness-of-formula-names clause is decided by a Verus proof on the real create_unique_formula_names (and add_theory's ordering); the declaration/typing clauses exist only as fmt output and are not covered.",
-        "design_ref": "DESIGN.md §5 C09, §6",
-        "note": "D6 (format! = concatenation; usize Display = decimal numeral) assumed; D14/D15/D16 normalisations; Display for Problem, rename_conflicting_symbols, add_annotated_formulas, decompose_* not verified.",
+        "text": 'Two clauses are decided by Verus proofs on the real code: formula names are unique (create_unique_formula_names; add_theory ordering) and every emitted problem has exactly one conjecture, after its axioms (decompose_independent/_sequential). The declaration/typing clauses exist only as fmt output and are not covered; two genuine defects in that part are listed as open known findings (an identifier declared at two types).',
+        "design_ref": "DESIGN.md §0, §5 C09",
+        "note": 'D6/T8 (format! = concatenation; usize Display = decimal numeral); D14-D16, D21/D22 desugarings; Display for Problem, rename_conflicting_symbols, add_annotated_formulas not verified; KNOWN-FINDING lines are printed for the two open findings.',
         "technique": "contract-based deductive verification (Verus) of mechanically extracted real code",
     },
     "C01": {
-        "text": "Partial, deep: the val_t(Z) layer — val, the four construct_* functions and choose_fresh_variable_names — is proved on the real code against the mini-gringo term semantics for all terms, interpretations and assignments "
-                "(unbounded, incl. fresh-name collisions and termination). The literal/rule layers and the stable-model step are not under contract.",
-        "design_ref": "DESIGN.md §5 C01",
-        "note": "division convention is an assumption of the spec (positive divisor, floor); tau_b*/rule layers not verified; stable = equilibrium from the literature.",
+        "text": 'Unbounded deductive proof (Verus) on the real code, program to terms: tau_star returns one sentence per rule, and every sentence tau_star_rule produces is closed and true in an HT interpretation (H subset of T) exactly when every ground instance of its rule is satisfied under the mini-gringo semantics (multi-valued intervals, partial division/modulo, comparisons, single/double negation, choice heads, constraints); each layer (val and its constructors, tau_b*, tau_body, the three rule translators) carries its own semantic contract, and all fresh-name reasoning (I/J/K/Q/R, Z-names, head variables V<n>) is proved on the real loops incl. termination and no overflow. The stable-model sentence of C01 rests on the literature.',
+        "design_ref": "DESIGN.md §0, §5 C01",
+        "note": 'Assumed: valtz (4-line drain/zip/map helper), the regex section of choose_fresh_global_variables (frame only), conjoin, division convention of the spec (positive divisor, floor), Display axioms, sort/to_vec specs; stable = equilibrium not re-proved. Two genuine defects in choose_fresh_global_variables found and fixed (dad0bac).',
         "technique": "contract-based deductive verification (Verus) of mechanically extracted real code",
     },
 }
